@@ -18,7 +18,9 @@ func init() { register("C02", checkC02) }
 type writerShape struct {
 	schedule, send, run *ssa.Function // implementations of Writer.Schedule / Send / Run in the module
 	jobType             types.Type
-	logGet              *core.Call // messageLog.Get in run
+	logGet              *core.Call // messageLog.Get in run, or in the helper of run that serves a job read from the log
+	logFn               *ssa.Function   // the function that holds logGet
+	logSite             ssa.Instruction // the place of run through which logGet runs (logGet itself, or the call of the helper)
 	recvAlloc           *ssa.Alloc // local holding the received job in run
 	fanout              *core.Call // the per-job fan-out call in the log branch (takes the publish read back)
 }
@@ -68,12 +70,19 @@ func (c *Ctx) writerShape(ru *report.Rule) *writerShape {
 	if w.schedule == nil || w.send == nil || w.run == nil || get == nil {
 		return nil
 	}
-	gs := core.CallsTo(w.run, get)
+	gs := c.callsToDeep(w.run, 2, get) // in the loop itself or in the helper that serves a job (writeFromLog(ctx, log, offset))
 	if !ru.Anchor(len(gs) == 1, "exactly one messageLog.Get call in the writer loop") {
 		return nil
 	}
 	w.logGet = gs[0]
-	lits := sentLiterals(w.schedule)
+	w.logFn = gs[0].Instr.Parent()
+	if sites := c.liftTo(w.run, gs[0].Instr); len(sites) == 1 {
+		w.logSite = sites[0]
+	}
+	if !ru.Anchor(w.logSite != nil, "the one place of the writer loop that reads the log") {
+		return nil
+	}
+	lits := c.queuedLiterals(w.schedule)
 	if !ru.Anchor(len(lits) >= 1, "the job literal sent by Writer.Schedule") {
 		return nil
 	}
@@ -103,7 +112,30 @@ func (c *Ctx) writerShape(ru *report.Rule) *writerShape {
 	c.R.Fn(c.fname(w.schedule))
 	c.R.Fn(c.fname(w.send))
 	c.R.Fn(c.fname(w.run))
+	if w.logFn != w.run {
+		c.R.Fn(c.fname(w.logFn))
+	}
 	return w
+}
+
+// queuedLiterals lists the job values fn puts on a channel: sent by fn itself, or handed to a helper of the module
+// that sends that parameter (enqueue(ctx, job)).
+func (c *Ctx) queuedLiterals(fn *ssa.Function) []ssa.Value {
+	out := sentLiterals(fn)
+	for _, cl := range core.CallsIn(fn) {
+		h := cl.Static
+		if h == nil || h == fn || h.Pkg == nil || !c.P.IsModPkg(h.Pkg.Pkg) || c.P.IsGenerated(h) {
+			continue
+		}
+		for _, sv := range sentLiterals(h) {
+			if p, ok := core.Strip(sv).(*ssa.Parameter); ok && p.Parent() == h {
+				if i := paramIdx(p); i >= 0 && i < len(cl.Common.Args) {
+					out = append(out, cl.Common.Args[i])
+				}
+			}
+		}
+	}
+	return out
 }
 
 // tv is a three-valued boolean / constant.
@@ -258,14 +290,14 @@ func checkC02(c *Ctx) {
 	ru4 := c.R.Rule("C02-R4", "job discriminator soundness: the condition under which the writer takes the branch that reads the log is definitely true for the literal queued by Writer.Schedule and definitely false for the literal queued by Writer.Send", "E12 three-valued evaluation over constructor literals", 2)
 	w := c.writerShape(ru4)
 	if w != nil {
-		conds := controllingConds(w.logGet.Instr.Block(), w.recvAlloc.Block())
+		conds := controllingConds(w.logSite.Block(), w.recvAlloc.Block())
 		relevant := 0
 		for _, role := range []struct {
 			name string
 			fn   *ssa.Function
 			want bool
 		}{{"Schedule", w.schedule, true}, {"Send", w.send, false}} {
-			for li, lit := range sentLiterals(role.fn) {
+			for li, lit := range c.queuedLiterals(role.fn) {
 				key := fmt.Sprintf("literal #%d queued by Writer.%s vs log-branch condition", li, role.name)
 				allTrue, someFalse, unknown := true, false, ""
 				for _, cd := range conds {
@@ -295,11 +327,15 @@ func checkC02(c *Ctx) {
 
 		ru5 := c.R.Rule("C02-R5", "in the log branch messageLog.Get receives the job's own offset and the publish it returns is what is fanned out", "E3 provenance", 2)
 		offOK := false
-		if ld, ok := conversionsOnly(w.logGet.Arg(0)).(*ssa.UnOp); ok && ld.Op == token.MUL {
+		offArg := conversionsOnly(w.logGet.Arg(0))
+		if w.logFn != w.run {
+			offArg = deepStrip(offArg) // the helper's offset parameter is what the loop passes at the call
+		}
+		if ld, ok := offArg.(*ssa.UnOp); ok && ld.Op == token.MUL {
 			if fa, ok := ld.X.(*ssa.FieldAddr); ok && fa.X == ssa.Value(w.recvAlloc) {
 				// the field must be the one Schedule fills from its offset parameter
 				name := fieldNameOf(fa.X.Type(), fa.Field)
-				for _, lit := range sentLiterals(w.schedule) {
+				for _, lit := range c.queuedLiterals(w.schedule) {
 					if fv := complitField(lit, name); fv != nil && reachesParam(fv, w.schedule, paramIndexOfType(w.schedule, "uint64")) {
 						offOK = true
 					}
@@ -308,7 +344,7 @@ func checkC02(c *Ctx) {
 		}
 		ru5.Check(offOK, "offset read back in "+c.fname(w.run), c.whereI(w.logGet.Instr), "Get(job.<field filled by Schedule's offset parameter>)", "messageLog.Get does not receive the offset that Schedule queued: "+short(core.Term(w.logGet.Arg(0)), 100))
 		fanOK, fanDetail := false, "no call after Get receives the publish it returned"
-		for _, cl := range core.CallsIn(w.run) {
+		for _, cl := range core.CallsIn(w.logFn) {
 			if !core.Dominates(w.logGet.Instr, cl.Instr) || cl.Instr == w.logGet.Instr {
 				continue
 			}
